@@ -138,7 +138,7 @@ def _die(sig, name):
 
 
 def _act(self, mode: str):
-    if mode in ('ok', 'probe', 'stubborn'):
+    if mode in ('ok', 'probe', 'stubborn', 'linger'):
         return
     if mode.startswith('raise:'):
         cls = EXC_TYPES[mode.split(':', 1)[1]]
@@ -212,7 +212,30 @@ def _node_body(self):
         import multiprocessing
         value = value + (probe_env(),)
     trace(f'E {name} {digest(value)} {os.getpid()}')
+    if self.mode == 'linger' and os.environ.get('VERIF_INPROC') != '1':
+        _linger(name, tuple(self.payload or ()))
     return value
+
+
+LINGER_S = 6.0
+
+
+def _linger(name: str, watch: tuple) -> None:
+    """run() is about to return, but the task's process stays alive: a non-daemon thread keeps running until one of the watched
+    tasks has started (or LINGER_S is over, which it records)."""
+    d = os.environ.get('VERIF_OBS_DIR')
+
+    def body():
+        t_end = time.monotonic() + LINGER_S
+        while time.monotonic() < t_end:
+            try:
+                if any(r[0] == 'S' and r[1] in watch for r in read_trace(d)):
+                    return
+            except Exception:
+                pass
+            time.sleep(0.02)
+        trace(f'M linger-timeout {name}')
+    threading.Thread(target=body, daemon=False).start()
 
 
 PROBE_GLOBAL = 'import-time'
